@@ -189,11 +189,12 @@ def timers_run(ctx, seed):
             # lifetime: rekey starts at the first sweep after rekey_ike_sa_at
             started = None
             while p.sim.clock < sa.rekey_ike_sa_at + 3:
-                before = p.sim.clock
-                out = p.do(['tick', 1])
-                reqs = [d for (s, dst, d) in out if s == '192.168.0.1' and hdr_fields(d)[4] == 36 and not (d[19] & 0x20)]
+                h0 = len(p.history)
+                p.do(['tick', 1])
+                p.drain()           # every delivery is a loop iteration too: the timers also run there
+                reqs = [d for (s, dst, d) in p.history[h0:]
+                        if s == '192.168.0.1' and hdr_fields(d)[4] == 36 and not (d[19] & 0x20)]
                 ctx.case({'kind': 'lifetime', 't': p.sim.clock - created, 'emitted': len(reqs)}, nontrivial=bool(reqs))
-                p.drain()
                 if reqs:
                     started = p.sim.clock
                     break
